@@ -441,7 +441,15 @@ def chna_val(ids):
     return "c" + b"".join(a.asByteArray() for a in mk_chna(ids).audioIDs).hex()
 
 
-def write_line(case, closed, nops=None):
+def f64_hex(x):
+    return struct.pack(">d", float(x)).hex()
+
+
+def write_line(case, closed, nops=None, mode="samples"):
+    """mode 'samples': every write call travels as the float64 bit patterns of its logical frames x channels block
+    (row-major) and the Lean model runs interleave + encode_pcm_samples itself (Model/Pcm.lean inside
+    Model/Bw64Writer.lean); mode 'bytes': the block is encoded by the real encoder here and the model gets the bytes
+    (the byte-level WOp.write the C09/C17 layout theorems are stated for)."""
     from ear.fileio.bw64.utils import encode_pcm_samples
 
     o = case["open"]
@@ -453,17 +461,56 @@ def write_line(case, closed, nops=None):
         if op == "w":
             blk = case["samples"][pos:pos + v]
             pos += v
-            # PCM encoding is C16's subject: the model takes the encoded bytes of each write call
-            # (the interleaved order is the row-major flattening of the logical frames x channels block; the Lean
-            # writer has no notion of memory layout)
+            # the interleaved order is the row-major flattening of the logical frames x channels block; the Lean
+            # writer has no notion of memory layout
             flat = np.ascontiguousarray(blk, dtype=float).reshape(-1)
-            enc = bytes(encode_pcm_samples(flat, case["bits"])) if v else b""
-            parts.append("w " + val(enc))
+            if mode == "samples":
+                parts.append("ws " + (",".join(f64_hex(x) for x in flat) if v else "-"))
+            else:
+                enc = bytes(encode_pcm_samples(flat, case["bits"])) if v else b""
+                parts.append("w " + val(enc))
         elif op == "sc":
             parts.append("sc " + chna_val(v))
         else:
             parts.append("%s %s" % (op, val(v)))
     return " ; ".join(parts)
+
+
+def split_write_answer(ans):
+    """('H'|'N'|None, hex): H = the history satisfies the hypotheses of the Lean theorem, N = packable but outside"""
+    if ans[:2] in ("H:", "N:"):
+        return ans[0], ans[2:]
+    return None, ans
+
+
+def parse_reads_extras(ans):
+    """cfg, pos, samples of a `reads` answer (None if the file was rejected)"""
+    if not ans.startswith("ok "):
+        return None
+    d = dict(kv.split("=", 1) for kv in ans[3:].split(" "))
+    if "cfg" not in d:
+        return None
+    smp = d["samples"]
+    return dict(cfg=tuple(int(x) for x in d["cfg"].split(",")), pos=int(d["pos"]),
+                samples=smp if smp in ("raises",) else tuple(x for x in smp.split(",") if x != "-"))
+
+
+def real_reads_extras(data):
+    """the same observations on the real reader: the constants its cursor methods use (as the opened reader holds
+    them), and read(len(reader)) as float64 bit patterns, buffer position afterwards"""
+    from ear.fileio.bw64 import Bw64Reader
+
+    with warnings.catch_warnings():
+        warnings.simplefilter("ignore")
+        r = Bw64Reader(io.BytesIO(data))
+        ci = r._chunks[b"data"]
+        cfg = (int(ci.position.data), int(r._formatInfo.blockAlignment), int(ci.size), int(r._file_len))
+        try:
+            smp = np.ascontiguousarray(r.read(len(r)), dtype="<f8").reshape(-1)
+            bits = tuple("%016x" % int(w) for w in smp.view("<u8"))
+        except Exception as e:
+            bits = "raises"
+        return dict(cfg=cfg, pos=int(r._buffer.tell()), samples=bits)
 
 
 def parse_read_answer(ans):
@@ -597,22 +644,31 @@ def grid_cases(rng, n_random, small=False):
 THEOREMS = (
     "fromLE_le2", "fromLE_le4", "fromLE_le8",
     "unclosedFile_layout", "closeW_layout", "walk_chunks", "walk_chunks_then", "chunkData_found",
-    "readFmt_spec", "readChna_spec", "finishRead_written", "C09_roundtrip",
+    "readFmt_spec", "readChna_spec", "finishRead_written", "C09_open", "C09_roundtrip",
+    # the driver's gates vs the theorem hypotheses
+    "fmtOK_iff_packable", "fmtOkB_iff", "chnaOK_iff_packable", "chnaOkB_iff", "bytesOK_iff_packable", "wop_packable",
+    # sample level: write(samples) = append (encode . interleave), read = deinterleave . decode of the cursor slice
+    "runS_eq", "closedFileS_eq", "unclosedFileS_eq", "encodeBlock_eq", "encOps_spec", "readAt_slice", "framesAt_written",
+    "C09_samples_roundtrip", "C09_samples_read_all",
 )
+PCM_THEOREMS = ("interleave_eq_flatten", "pack_eq", "decodeBytes_pack", "decode_slice",
+                "encode_isCode", "encode_within_step", "encode_clipped", "decode_encode_representable")
 
 
 class C09(Spec):
     pid = "C09"
     lean_targets = ("Earverif.Props.C09", "c09driver")
     props_module = "Earverif.Props.C09"
-    theorems = tuple("Earverif.Bw64." + t for t in THEOREMS)
+    theorems = tuple("Earverif.Bw64." + t for t in THEOREMS) + tuple("Earverif.Pcm." + t for t in PCM_THEOREMS)
     trusted_base = (
         "models Earverif/Model/Bw64Bytes.lean, Bw64Writer.lean, Bw64Reader.lean are hand transliterations of "
         "Bw64Writer.__init__/write/close and Bw64Reader.__init__ + accessors on a BytesIO; BytesIO seek/read/write "
         "semantics as modelled by readAt/patchAt",
-        "PCM encoding/decoding of sample values is C16's subject: the model's write takes the encoded bytes and the "
-        "model's read returns the bytes handed to the decoder (the harness obtains the bytes of each write call from the "
-        "real encoder and compares decoded integer codes)",
+        "sample values: the model's sample-level write (SOp.write / closedFileS) takes the float64 samples as exact "
+        "rationals and runs Model/Pcm.lean's interleave + encode_pcm_samples (rn53 rounding model of Model/Ieee.lean, "
+        "C16's trusted base) itself; the model's readSamples runs decode_pcm_samples + deinterleave on the cursor slice; "
+        "three of four generated histories are sent as float bit patterns and the samples read back are compared bit "
+        "for bit; every fourth history is sent at byte level (WOp.write, bytes from the real encoder)",
         "one chna entry is a track index plus 38 opaque bytes (AudioID.asByteArray layout); the string-level AudioID "
         "codec (AC_..._00 suffix, None pack format, utf-8) is covered by the correspondence and the direct predicate, "
         "not by the theorem",
@@ -624,6 +680,11 @@ class C09(Spec):
         "each metadata chunk is supplied one way (at construction or by the setter); None and b'' count as not supplied; "
         "a ChnaChunk with no AudioIDs is written (the object is truthy)",
         "format is PCM (formatTag 1) without extra data: the only format the writer's write() supports",
+        "every block passed to write() is a frames x channels array (rows of exactly `channels` samples, zero rows "
+        "allowed): BlocksOK; anything else fails the writer's shape assertion",
+        "samples are float64 values other than NaN (+-inf are clipped like any value outside [-1, 1])",
+        "chna entries are what AudioID.asByteArray produces: an AC_ reference carries the _00 suffix (otherwise the "
+        "reader warns: ChnaOK = chnaPackable + no such entry, theorem chnaOK_iff_packable)",
     )
     rule = (
         "a case is one writer history (format, at-open chunks, sequence of write/setter calls, forceBw64); all 250 "
@@ -635,17 +696,19 @@ class C09(Spec):
 
     def _run(self, ctx, cases, driver):
         lines, reals = [], []
-        for case in cases:
+        for n, case in enumerate(cases):
             try:
                 data, _ = real_write(case)
             except Exception as e:
                 ctx.hit("writer raised", case_repr(case), "%s: %s" % (type(e).__name__, e), ["writer-exception"])
                 continue
-            reals.append((case, data))
-            lines.append(write_line(case, True))
-            lines.append("read " + val(data))
+            # three of four histories at sample level (floats in, the model encodes), one at byte level
+            mode = "bytes" if n % 4 == 3 else "samples"
+            reals.append((case, data, mode))
+            lines.append(write_line(case, True, mode=mode))
+            lines.append("reads " + val(data))
         outs = driver.run(lines) if driver else [None] * len(lines)
-        for i, (case, data) in enumerate(reals):
+        for i, (case, data, mode) in enumerate(reals):
             feats = case_features(case)
             for f in feats:
                 ctx.count(f)
@@ -654,15 +717,33 @@ class C09(Spec):
             nontriv = any(not f.endswith("absent") for f in feats if f[:4] in ("chna", "axml", "bext")) or case["frames"] > 0
             ctx.case(data, nontriv, sample=dict(features=feats, file_len=len(data), read=str(canon_real(r))[:300]))
             if driver:
-                wout, rout = outs[2 * i], outs[2 * i + 1]
+                flag, wout = split_write_answer(outs[2 * i])
+                rout = outs[2 * i + 1]
+                ctx.count("model-write:" + mode)
+                ctx.count("theorem-hypotheses:" + {"H": "inside", "N": "OUTSIDE", None: "no-answer"}[flag])
                 ok = True
+                if flag == "N":
+                    # the generator is meant to stay inside the quantifier of C09_roundtrip / C09_samples_roundtrip
+                    ok = False
+                    ctx.disagree("generated history outside the hypotheses of the Lean theorem (generator drifted)",
+                                 case_repr(case), "N", "H expected")
                 if wout != data.hex():
                     ok = False
-                    ctx.disagree("Bw64Writer bytes vs Earverif.Bw64.closedFile", case_repr(case), wout, data.hex())
+                    ctx.disagree("Bw64Writer bytes vs Earverif.Bw64.%s" % ("closedFileS" if mode == "samples" else "closedFile"),
+                                 case_repr(case), wout, data.hex())
                 m = parse_read_answer(rout)
                 if m != canon_real(r):
                     ok = False
                     ctx.disagree("Bw64Reader parse vs Earverif.Bw64.readFile", dict(file=data.hex()), m, canon_real(r))
+                if r[0] == "ok":
+                    # the opened reader's constants and read(len) through decode + deinterleave, bit for bit
+                    mx, rx = parse_reads_extras(rout), real_reads_extras(data)
+                    ctx.count("reads:samples-compared", len(rx["samples"]) if rx["samples"] != "raises" else 0)
+                    if mx != rx:
+                        ok = False
+                        what = next((k for k in ("cfg", "pos", "samples") if mx is None or mx[k] != rx[k]), "?")
+                        ctx.disagree("Bw64Reader.read(len) / reader constants vs Earverif.Bw64.openReader+readSamples (%s)" % what,
+                                     dict(file=data.hex()), None if mx is None else str(mx[what])[:300], str(rx[what])[:300])
                 if ok:
                     ctx.validated()
             bad = predicates(case, data)
@@ -699,25 +780,40 @@ class C09(Spec):
 SPEC = C09()
 
 REGISTRY = dict(
-    text="FULL: Lean theorem Earverif.Bw64.C09_roundtrip proves, for the byte-level models of Bw64Writer "
-    "(__init__/write/setters/close as append and patch-at-offset operations) and Bw64Reader (__init__ + accessors), "
-    "that for every PCM format (16/24/32 bit, channels >= 1, rate >= 1, fields within struct widths), every history "
-    "of write calls (any partition, empty blocks) and chunk setter calls, axml/chna/bext each absent, empty or of any "
-    "length < 2^32, given at construction or pending at close, forceBw64 either way, whole frames and < 2^63 data "
-    "bytes: readFile (closedFile ...) = ok with the same format, frame count, data bytes and chunk contents and an "
-    "EMPTY warning list (container id BW64 iff forced or RIFF size >= 2^32). Supporting theorems: closeW_layout "
-    "(closed-form layout incl. size back-patching and JUNK->ds64), walk_chunks (the reader's chunk walk records every "
-    "well-formed chunk), finishRead_written. The models are tied to the code on every run byte-for-byte (written "
-    "files) and field-for-field (parses, warnings as multiset) over all 250 chunk presence/parity/placement/force "
-    "combinations x bit depth x channels x frame classes + random histories; the round-trip predicate (format, samples "
-    "exact for representable values / within one step otherwise, chunk bytes, chna objects, no warnings) runs on the "
-    "real code for every case.",
-    note="Trusted: Lean kernel; hand transliteration of writer/reader + correspondence harness; BytesIO semantics as "
-    "modelled (readAt/patchAt); PCM sample encoding is C16's subject (model takes encoded bytes; sample values are "
-    "checked by the direct predicate only); a chna entry is track index + 38 opaque bytes in the theorem (string-level "
-    "AudioID codec covered by correspondence and predicate). Chunks supplied both at construction and later are "
-    "outside the property (the theorem states what the file then contains: the constructor's value).",
-    technique="Lean 4 proof about byte-level writer/reader models + differential correspondence with the real "
-    "Bw64Writer/Bw64Reader + round-trip search on the real code",
+    text="FULL: Lean theorems about the models of Bw64Writer (__init__/write/setters/close as append and patch-at-offset "
+    "operations, write(samples) = append(encode_pcm_samples(interleave(samples)))) and Bw64Reader (__init__ + accessors + "
+    "read = deinterleave(decode_pcm_samples(cursor slice))). Earverif.Bw64.C09_roundtrip: for every PCM format (16/24/32 "
+    "bit, channels >= 1, rate >= 1, fields within struct widths), every history of write calls (any partition, empty "
+    "blocks) and chunk setter calls, axml/chna/bext each absent, empty or of any length < 2^32, given at construction or "
+    "pending at close, forceBw64 either way, whole frames and < 2^63 data bytes: readFile (closedFile ...) = ok with the "
+    "same format, frame count, data bytes and chunk contents and an EMPTY warning list (container id BW64 iff forced or "
+    "RIFF size >= 2^32). Earverif.Bw64.C09_samples_roundtrip (sample level, composed with C16 and C18): for every history "
+    "of write(samples) calls with frames x channels float blocks, no call raises, the reader opens the file with frame "
+    "count = frames written and well-formed cursor constants (Cursor.WF, the hypothesis of C18's ops_refine), and "
+    "read(n) at any cursor c returns exactly frames [c, min(c+n, N)) of the written audio mapped through decode(encode(x)) "
+    "-- whatever the partition into write calls; C09_samples_read_all: read(len) returns all of them. What decode(encode(x)) "
+    "is: Earverif.Pcm.encode_within_step (|x| <= 1: |decode(encode x) - x| < 1/(2^(b-1)-1) + 2^-54), encode_clipped "
+    "(|x| > 1: exactly +-1), decode_encode_representable (x = decode(c), c not the most negative code: exactly x). "
+    "Supporting: closeW_layout, walk_chunks, finishRead_written, runS_eq / closedFileS_eq (sample-level run = byte-level run "
+    "on the encoded blocks), encOps_spec (data bytes = encoder output on all frames concatenated, for any partition), "
+    "decode_slice / framesAt_written (a slice of written bytes decodes and de-interleaves to the slice of frames). "
+    "fmtOK_iff_packable, chnaOK_iff_packable, bytesOK_iff_packable relate the driver's struct.pack gates to the theorem "
+    "hypotheses; the driver evaluates the hypotheses (fmtOkB_iff, chnaOkB_iff) on every case and the check fails if a "
+    "generated history is outside them. The models are tied to the code on every run byte-for-byte (written files; three of "
+    "four histories enter the model as float64 bit patterns, so interleave/encode run inside the model), field-for-field "
+    "(parses, warnings as multiset, the reader's data position / block alignment / data size / file length) and bit-for-bit "
+    "(samples returned by read(len)) over all 250 chunk presence/parity/placement/force combinations x bit depth x channels "
+    "x frame classes + random histories; the round-trip predicate (format, samples exact for representable values / within "
+    "one step otherwise, chunk bytes, chna objects, no warnings) runs on the real code for every case.",
+    note="Trusted: Lean kernel; hand transliteration of writer/reader/PCM utils + correspondence harness; BytesIO semantics as "
+    "modelled (readAt/patchAt); numpy float64 * and / being IEEE round-to-nearest-even (C16's rn53 model, checked bit for "
+    "bit on every run); a chna entry is track index + 38 opaque bytes in the theorem (string-level AudioID codec covered by "
+    "correspondence and predicate). 'Within one quantisation step' is proved as < step + 2^-54 (the decoded value is itself a "
+    "rounded quotient; the bare bound <= step is not a theorem), the direct predicate uses step*(1+1e-9). Memory layout / "
+    "dtype of the array passed to write() (float32, strided views) is outside the model: covered by the layout predicate on "
+    "the real code. Chunks supplied both at construction and later are outside the property (the theorem states what the "
+    "file then contains: the constructor's value). NaN samples are outside.",
+    technique="Lean 4 proofs about byte- and sample-level writer/reader models (composition of C16's PCM model and C18's "
+    "cursor model) + differential correspondence with the real Bw64Writer/Bw64Reader + round-trip search on the real code",
     design_ref="DESIGN.md section 4, C09",
 )
